@@ -2,7 +2,7 @@
 import os, subprocess, struct
 import numpy as np
 from hypothesis import strategies as st
-from h4verif.exe import Prog, V, run, CaseDir, BUILD, base_env
+from h4verif.exe import Prog, V, run, CaseDir, BUILD, base_env, i32s
 from h4verif.runner import CaseResult
 from checks import c02
 
@@ -93,7 +93,15 @@ def strategy_(draw, tier):
             o["ydim"] *= draw(st.integers(2, 6))
     sds = [(o["name"], o["dims"]) for o in base["objs"] if o["kind"] == "sds"]
     imgs = [(o["name"], (o["xdim"], o["ydim"])) for o in base["objs"] if o["kind"] == "gr"]
-    return {"file": base, "opts": draw(options_st(sds, imgs)), "opts2": draw(options_st(sds, imgs))}
+    case = {"file": base, "opts": draw(options_st(sds, imgs)), "opts2": draw(options_st(sds, imgs))}
+    if draw(st.integers(0, 29)) == 0:
+        # one dataset larger than hrepack's 1 MiB copy buffer (it is then copied strip by strip)
+        case["big"] = draw(st.integers(0, len(BIG) - 1))
+    return case
+
+
+BIG = [("float32", [5, 300, 1000]), ("float32", [3, 300000]), ("int32", [2, 700, 400]), ("int16", [4, 1100, 300]),
+       ("uint8", [3, 1100000]), ("float64", [3, 50, 1000])]
 
 
 def strategy(tier):
@@ -224,6 +232,22 @@ def check(case, d, labels, excluded, known_keys):
         text += p.text()
         if not rr.done:
             raise Fail("harness: building the input file crashed", detail=rr.sanitizer_summary(), program=text[-3000:])
+    if case.get("big") is not None:
+        nt_, dims_ = BIG[case["big"]]
+        code_ = {"float32": 5, "float64": 6, "int32": 24, "int16": 22, "uint8": 21}[nt_]
+        bp = Prog()
+        bp.call("i", "SDstart", "f.hdf", 3 if os.path.exists(os.path.join(d, "f.hdf")) else 4, bind="sd")
+        bp.call("i", "SDcreate", V("sd"), "bigcube", code_, len(dims_), i32s(*dims_), bind="s")
+        plane = int(np.prod(dims_[1:]))
+        for k_ in range(dims_[0]):
+            v_ = ((np.arange(plane, dtype=np.int64) * 7 + k_ * 100003) % 250).astype(nt_)
+            bp.call("i", "SDwritedata", V("s"), i32s(*([k_] + [0] * (len(dims_) - 1))), None, i32s(*([1] + dims_[1:])), v_.tobytes())
+        bp.call("i", "SDendaccess", V("s"))
+        bp.call("i", "SDend", V("sd"))
+        rb_ = run(bp, cwd=d, timeout=300)
+        if not rb_.done or any(r_.ret == -1 for r_ in rb_.res.values() if r_.kind == "R"):
+            raise Fail("harness: adding the large dataset failed", detail=rb_.sanitizer_summary())
+        labels.add("dataset_larger_than_copy_buffer")
     if not os.path.exists(os.path.join(d, "f.hdf")):
         return
     kinds = set(o["kind"] for o in fc["objs"])
